@@ -35,4 +35,8 @@ def sysCodec : Codec :=
 def ksOfBytes (stream : Bytes) : Unit → Nat → Block16 :=
   fun _ blk j => stream.getD (16 * blk + j.val) 0
 
+/-- the same from an array (constant-time lookup; what the drivers use) -/
+def ksOfArray (stream : Array UInt8) : Unit → Nat → Block16 :=
+  fun _ blk j => stream.getD (16 * blk + j.val) 0
+
 end Tahoe.Immutable.Pipeline
